@@ -9,7 +9,9 @@ compared with the model; generated reaction states of every entity kind go throu
 on the real library (no errors, fixed text after ≤ 1 cycle, follow-up results at 1e-7, SOLUTION_MODIFY, StorageBin /
 Serializer / InternalCopy copies), and every difference between first and second dump must be one the model predicts."""
 import concurrent.futures
+import json
 import struct
+import time
 
 import gen_raw
 import rawparse
@@ -24,15 +26,6 @@ KW2TAB = {"SOLUTION_RAW": "Solution", "EXCHANGE_RAW": "Exchange", "SURFACE_RAW":
           "EQUILIBRIUM_PHASES_RAW": "PPassemblage", "SOLID_SOLUTIONS_RAW": "SSassemblage", "KINETICS_RAW": "Kinetics",
           "MIX_RAW": "Mix", "REACTION_RAW": "Reaction", "REACTION_TEMPERATURE_RAW": "Temperature",
           "REACTION_PRESSURE_RAW": "Pressure"}
-
-FINDING_KEYS = {
-    ("Solution", "header_symmetric", "Isotope"): "isotope-header",
-    ("SolutionIsotope", "no_cross_wiring", "ratio_uncertainty"): "isotope-ratio-uncertainty-order",
-    ("SolutionIsotope", "state_restored", "ratio_uncertainty"): "isotope-ratio-uncertainty-order",
-    ("SolutionIsotope", "required_defined", "ratio_defined"): "isotope-ratio-defined-flag",
-    ("SolutionIsotope", "required_defined", "ratio_uncertainty_defined"): "isotope-ratio-uncertainty-required",
-}
-
 
 def hx(s):
     return s.encode().hex() if s else "-"
@@ -84,26 +77,11 @@ def parse_sel(line):
     return out
 
 
-LAG_COLS = ("pressure", "total mol", "volume")
-
-
-def lag_col(h, u=0.0, v=0.0):
-    return h in LAG_COLS or h.startswith("g_")
-
-
-def ph_noise(h, u, v):
-    """pH of an unbuffered water follows total H, which the RAW text carries with 14 significant digits only"""
-    return h == "pH" and abs(u - v) <= 1e-5 * max(abs(u), abs(v))
-
-
-def skip_for(case):
-    gas = "gas" in case["kinds"]
-    return lambda h, u, v: ph_noise(h, u, v) or (gas and lag_col(h))
-
-
-def cells_differ(a, b, skip=None, skipped=None, rel=None):
-    """compare two selected-output tables at relative 1e-7; returns description or None. Columns for which skip(heading)
-    holds are not judged; their differences are appended to `skipped`."""
+def cells_differ(a, b):
+    """compare two selected-output tables at relative 1e-7 (+1e-15 absolute floor); returns a description of the first
+    difference or None"""
+    if a is None or b is None:
+        return "table missing"
     if set(a) != set(b):
         return f"user numbers {sorted(a)} vs {sorted(b)}"
     for un in a:
@@ -124,11 +102,7 @@ def cells_differ(a, b, skip=None, skipped=None, rel=None):
                     for j in range(nc):
                         if heads[j][0] == "S" and unhx(heads[j][1:]) == base and ca[(k // nc) * nc + j][0] == "D":
                             scale = max(scale, abs(unhexd(ca[(k // nc) * nc + j][1:])))
-                if u == v or abs(u - v) <= (rel or REL) * scale + ABS_FLOOR:
-                    continue
-                if skip and skip(h, u, v):
-                    if skipped is not None:
-                        skipped.append(f"row {k // nc} column {h}: {u!r} vs {v!r}")
+                if u == v or abs(u - v) <= REL * scale + ABS_FLOOR:
                     continue
                 return f"table {un} row {k // nc} column {h}: {u!r} vs {v!r}"
             return f"table {un} cell {k}: {x} vs {y}"
@@ -149,14 +123,14 @@ def eval_case(ctx, exe, case, status_of, deep=True):
         return eval_case_inner(ctx, exe, case, status_of, deep)
     except Slow:
         return dict(problems=[("setup", "time budget of one harness process exceeded (slow kinetics of the state)")],
-                    judged=False, d1_ne_d2=False, followups=0, copies=0, notes=["timeout"], timeout=True)
+                    sig=[], judged=False, d1_ne_d2=False, followups=0, copies=0, notes=["timeout"], timeout=True)
 
 
 def eval_case_inner(ctx, exe, case, status_of, deep=True):
     """run one generated state through the real library. Returns dict(problems=[(class, text)], stats…).
     problem classes: 'setup' (not judged), 'read-error', 'not-fixed', 'followup', 'modify', 'bincopy', 'sercopy',
     'icopy', 'model' (first/second dump differ on a key the model calls restored)"""
-    res = dict(problems=[], judged=False, d1_ne_d2=False, followups=0, copies=0, notes=[])
+    res = dict(problems=[], sig=[], judged=False, d1_ne_d2=False, followups=0, copies=0, notes=[])
     dbp = hx(db_path(case["db"]))
     adds = case.get("adds") or ""
 
@@ -170,7 +144,7 @@ def eval_case_inner(ctx, exe, case, status_of, deep=True):
     fresh("A", ops)
     i_setup = len(ops)
     ops.append(f"run A {hx(case['setup'] + DUMP_ALL)}")
-    ops += ["dumpstr A", "rawall A"]
+    ops += ["dumpstr A", "rawall A", "hidden A"]
     out, rc, err = run_ops(ctx, exe, ops)
     if rc != 0 or len(out) < len(ops):
         res["problems"].append(("setup", f"harness stopped rc={rc} {err}"))
@@ -188,8 +162,14 @@ def eval_case_inner(ctx, exe, case, status_of, deep=True):
         return res
     res["judged"] = True
     res["entities"] = sorted(k[0] for k in ents1)
-    base_ops = list(ops)
-    # ---- stage 2: B reads d1, dumps d2; C reads d2, dumps d3; follow-ups on A and B; copies D E F; modify M
+    hidA = out[i_setup + 3]
+    base_ops = list(ops[:-1])
+    gas = "gas" in case["kinds"]
+    # components tied to a pure phase / kinetic reactant: their amounts are re-derived from it whenever input is read
+    tied = {(k, p.rsplit("/", 1)[0]) for k, f in ents1.items() if k[0] in ("EXCHANGE_RAW", "SURFACE_RAW")
+            for p in f if p.endswith("/phase_name") or p.endswith("/rate_name")}
+    # ---- stage 2 (one process): restored B, second cycle C, exact copies D (StorageBin) and E (Serializer) taken BEFORE any
+    #      follow-up, B2 = restored + the original engine's Peng-Robinson cache (gas cases), M = restored + SOLUTION_MODIFY
     ops = list(base_ops)
     idx = {}
     fresh("B", ops)
@@ -206,57 +186,72 @@ def eval_case_inner(ctx, exe, case, status_of, deep=True):
     if rcB != 0:
         res["problems"].append(("read-error", f"{rcB} errors reading the dump into a fresh instance: {errB[:400]}"))
         return res
-    skip = skip_for(case)
-    # an adaptive rate integration amplifies the 14-digit rounding of the text up to its own error tolerance: judged at 1e-4 there
-    rel = 1e-4 if "kin" in case["kinds"] else None
-    lag = []
-    ops2 = list(ops)
-    fresh("C", ops2)
-    idx["readC"] = len(ops2)
-    ops2.append(f"run C {hx(d2 + DUMP_ALL)}")
-    idx["d3"] = len(ops2)
-    ops2.append("dumpstr C")
-    # follow-ups on the original A and the restored B (RUN_CELLS stores into the cell, so it comes last)
+    fresh("C", ops)
+    idx["readC"] = len(ops)
+    ops.append(f"run C {hx(d2 + DUMP_ALL)}")
+    idx["d3"] = len(ops)
+    ops.append("dumpstr C")
+    insts = ["A", "B"]
+    if deep:
+        fresh("D", ops)
+        fresh("E", ops)
+        idx["copies"] = len(ops)
+        ops += ["bincopy A D", "rawall D", "sercopy A E 0 12", "rawall E", "serstream A 0 12", "serstream E 0 12"]
+        insts.append("D")
+        ser_ok = not ({"mix", "rxn"} & set(case["kinds"]))      # MIX and REACTION are not part of the Serializer
+        if ser_ok:
+            insts.append("E")
     fu = case["followups"] if deep else case["followups"][:1]
-    idx["fu"] = []
-    for name, text in fu:
-        rec = {}
-        for t in ("A", "B"):
-            rec[t] = len(ops2)
-            ops2 += [f"run {t} {hx(text)}", f"sel {t}"]
-        idx["fu"].append((name, rec))
     name0, text0 = fu[0]
-    # SOLUTION_MODIFY: perturb the restored solution, then restore only totals / total_h / total_o / cb
+    first_only = []
+    if gas and deep:
+        fresh("B2", ops)
+        ops.append(f"run B2 {hx(d1)}")
+        for ph in hidA.split(" | ")[1:]:
+            t = ph.split()
+            if t[4] != "0000000000000000":
+                ops.append(f"setphase B2 {hx(t[0])} {t[1]} {t[2]} {t[3]} {t[4]} {t[5]}")
+        first_only.append("B2")
     sol = ents1.get(("SOLUTION_RAW", 1))
-    if sol is not None and not any(p.startswith("Isotope") for p in sol):
-        fresh("M", ops2)
-        ops2.append(f"run M {hx(d1)}")
+    if sol is not None:
+        fresh("M", ops)
+        ops.append(f"run M {hx(d1)}")
         tot = {p.split("/", 1)[1]: v for p, v in sol.items() if p.startswith("totals/")}
-        pert = ["SOLUTION_MODIFY 1", f" -total_h {float(sol['total_h']) * 1.01!r}", f" -cb {float(sol['cb']) + 1e-4!r}", " -totals"]
-        pert += [f"  {el} {float(v) * 1.5!r}" for el, v in tot.items()]
         back = ["SOLUTION_MODIFY 1", f" -total_h {sol['total_h']}", f" -total_o {sol['total_o']}", f" -cb {sol['cb']}", " -totals"]
         back += [f"  {el} {v}" for el, v in tot.items()]
-        idx["mod"] = len(ops2)
-        # (a perturb-then-restore variant was tried: it leaves pH of unbuffered waters different at ~1e-6, the size of the solver's own
-        #  convergence noise from other starting guesses, so only the restoring MODIFY itself is judged)
-        ops2 += ["run M " + hx("END" + chr(10)), f"run M {hx(chr(10).join(back) + chr(10) + 'END' + chr(10))}",
-                 f"run M {hx(text0)}", "sel M"]
-    out, rc, err = run_ops(ctx, exe, ops2)
-    if rc != 0 or len(out) < len(ops2):
-        res["problems"].append(("crash", f"process died rc={rc} after {len(out)}/{len(ops2)} ops {err}"))
+        idx["mod"] = len(ops)
+        ops.append(f"run M {hx(chr(10).join(back) + chr(10) + 'END' + chr(10))}")
+        first_only.append("M")
+    pos = {}
+    for n_fu, (name, text) in enumerate(fu):
+        for t in insts + (first_only if n_fu == 0 else []):
+            pos[(name, t)] = len(ops)
+            ops += [f"run {t} {hx(text)}", f"sel {t}"]
+    out, rc, err = run_ops(ctx, exe, ops)
+    if rc != 0 or len(out) < len(ops):
+        res["problems"].append(("crash", f"process died rc={rc} after {len(out)}/{len(ops)} ops {err}"))
         return res
     rcC, errC, _ = parse_run(out[idx["readC"]])
     d3 = unhx(out[idx["d3"]].split()[1])
+    e2 = raw_entities(d2)
+
+    def under_tied(k, p):
+        return any(k == tk and p.startswith(tp + "/") for tk, tp in tied)
     if rcC != 0:
         res["problems"].append(("read-error", f"{rcC} errors reading the SECOND dump: {errC[:300]}"))
     elif d3 != d2:
-        e2, e3 = raw_entities(d2), raw_entities(d3)
-        diff = [(k, p) for k in e2 for p in set(e2[k]) | set(e3.get(k, {})) if e2[k].get(p) != e3.get(k, {}).get(p)][:5]
-        res["problems"].append(("not-fixed", f"dump text still changes in the second cycle: {diff or 'layout'}"))
+        e3 = raw_entities(d3)
+        diff = [(k, p) for k in e2 for p in sorted(set(e2[k]) | set(e3.get(k, {}))) if e2[k].get(p) != e3.get(k, {}).get(p)]
+        # update_min_exchange / update_kin_exchange: a tied component whose site total has been scaled to zero is rebuilt from its
+        # formula on the next read, which drops the zero-valued counter-ion entries → one more cycle
+        if diff and all(under_tied(k, p) and "/totals/" in p and float(e2[k].get(p, "0")) == 0.0 for k, p in diff):
+            res["sig"].append(("exchange-on-empty-phase-two-cycles", f"third dump differs from the second: {diff[:4]}"))
+        else:
+            res["problems"].append(("not-fixed", f"dump text still changes in the second cycle: {diff[:5] or 'layout'}"))
     # model correspondence: where first and second dump differ, the model must call the key dropped
+    rederived = False
     if d2 != d1:
         res["d1_ne_d2"] = True
-        e2 = raw_entities(d2)
         for k, f1 in ents1.items():
             f2 = e2.get(k)
             if f2 is None:
@@ -265,9 +260,9 @@ def eval_case_inner(ctx, exe, case, status_of, deep=True):
             for p in sorted(set(f1) | set(f2)):
                 if f1.get(p) == f2.get(p):
                     continue
-                comp = p.split("/")[0]
-                if k[0] in ("EXCHANGE_RAW", "SURFACE_RAW") and (f1.get(comp + "/phase_name") or f1.get(comp + "/rate_name")):
-                    continue        # amounts of a component tied to a phase / kinetic reactant are re-derived from it when read (tidy)
+                if under_tied(k, p):
+                    rederived = True
+                    continue        # amounts of a component tied to a phase / kinetic reactant are re-derived from it when read
                 st = status_of(KW2TAB[k[0]], p)
                 if st == "unmodelled":
                     continue        # proof side unavailable (obligation broken): only the direct oracles are judged
@@ -276,115 +271,103 @@ def eval_case_inner(ctx, exe, case, status_of, deep=True):
                 st = st.replace("+guarded", "")
                 if st != "dropped":
                     res["problems"].append(("model", f"{k} {p}: '{f1.get(p)}' → '{f2.get(p)}' but the model says {st}"))
-    # follow-ups
-    selA0 = None
-    for name, rec in idx["fu"]:
-        ra = parse_run(out[rec["A"]])
-        rb = parse_run(out[rec["B"]])
+    # ---- follow-ups: original A vs restored B, exact copies D / E, modified M; every difference is triaged
+    T = {}
+    for (name, t), p in pos.items():
+        r = parse_run(out[p])
+        T[(name, t)] = (r, parse_sel(out[p + 1]) if r[0] == 0 else None)
+    if "mod" in idx and parse_run(out[idx["mod"]])[0] != 0:
+        res["problems"].append(("modify", f"SOLUTION_MODIFY restoring totals/H/O/cb fails: {parse_run(out[idx['mod']])[1][:300]}"))
+        T.pop((name0, "M"), None)
+    elif "mod" in idx:
+        res["modify"] = True
+    CLASS = {"B": "followup", "D": "bincopy", "E": "sercopy", "M": "modify"}
+    for n_fu, (name, text) in enumerate(fu):
+        ra, selA = T[(name, "A")]
         if ra[0] != 0:
             res["notes"].append(f"follow-up {name} fails on the original state (not judged)")
             continue
-        if selA0 is None and name == name0:
-            selA0 = parse_sel(out[rec["A"] + 1])
-        res["followups"] += 1
-        if rb[0] != 0:
-            res["problems"].append(("followup", f"follow-up {name} runs on the original state but fails on the restored one: {rb[1][:300]}"))
-            continue
-        d = cells_differ(parse_sel(out[rec["A"] + 1]), parse_sel(out[rec["B"] + 1]), skip, lag, rel)
-        if d:
-            res["problems"].append(("followup", f"follow-up {name}: original vs restored: {d}"))
-    if "mod" in idx:
-        r1, r2, r3 = (parse_run(out[idx["mod"] + j]) for j in range(3))
-        if r1[0] == 0 and selA0 is not None:
-            res["modify"] = True
-            if r2[0] != 0 or r3[0] != 0:
-                res["problems"].append(("modify", f"SOLUTION_MODIFY restore fails: {(r2[1] + r3[1])[:300]}"))
+        tab = {t: T[(name, t)] for t in ("B", "D", "E", "M", "B2") if (name, t) in T}
+        dAB = cells_differ(selA, tab["B"][1]) if tab["B"][0][0] == 0 else None
+        cause = None
+        if dAB:
+            selB = tab["B"][1]
+            selD = tab["D"][1] if "D" in tab and tab["D"][0][0] == 0 else None
+            if rederived:
+                cause = "tied-exchanger-rederived"
+            elif selD is not None and cells_differ(selA, selD) is None:
+                cause = "raw-text-14-digits"          # an exact copy in an equally fresh engine reproduces the original
+            elif selD is not None and cells_differ(selB, selD) is None:
+                if "B2" in tab and tab["B2"][0][0] == 0 and cells_differ(selA, tab["B2"][1]) is None:
+                    cause = "gas-phase-first-step-lag"  # restored + the original's phase::pr_si_f reproduces the original
+        for t in ("B", "D", "E", "M"):
+            if t not in tab:
+                continue
+            rt, selX = tab[t]
+            res["followups"] += 1
+            if rt[0] != 0:
+                res["problems"].append((CLASS[t], f"follow-up {name} runs on the original state but fails on {t}: {rt[1][:300]}"))
+                continue
+            d = cells_differ(selA, selX)
+            if not d:
+                continue
+            like_ref = t == "B" or cells_differ(tab["B"][1], selX) is None or \
+                ("D" in tab and tab["D"][0][0] == 0 and cells_differ(tab["D"][1], selX) is None)
+            if cause and like_ref:
+                res["sig"].append((cause, f"follow-up {name}, original vs {CLASS[t]}: {d}"))
             else:
-                d = cells_differ(selA0, parse_sel(out[idx["mod"] + 3]), skip, lag, rel)
-                if d:
-                    res["problems"].append(("modify", f"after SOLUTION_MODIFY restoring totals/H/O/cb: {d}"))
-    if lag:
-        res["lag"] = [x for x in lag if "column pH" not in x][:3]
-        res["phnoise"] = [x for x in lag if "column pH" in x][:3]
-    # ---- stage 3 (own process: the copy constructor can take the process down): in-memory copies of a twin A2
-    if not deep:
-        return res
-    ops3 = []
-    fresh("A2", ops3)
-    ops3.append(f"run A2 {hx(case['setup'])}")
-    for nm in ("D", "E"):
-        fresh(nm, ops3)
-    i_rawA2 = len(ops3)
-    ops3 += ["rawall A2", "bincopy A2 D", "rawall D", "sercopy A2 E 0 12", "rawall E", "serstream A2 0 12", "serstream E 0 12"]
-    i_fu = len(ops3)
-    ser_ok = not ({"mix", "rxn"} & set(case["kinds"]))
-    for t in ("A2", "D") + (("E",) if ser_ok else ()):
-        ops3 += [f"run {t} {hx(text0)}", f"sel {t}"]
-    out, rc, err = run_ops(ctx, exe, ops3)
-    if len(out) <= i_fu:
-        res["problems"].append(("crash", f"process died during the StorageBin/Serializer copies rc={rc} {err}"))
-        return res
-    nonneg = lambda ents: {k: v for k, v in ents.items() if k[1] >= 0}
-    ea = nonneg(raw_entities(unhx(out[i_rawA2].split()[1])))
-    if ea != nonneg(raw_entities(rawA)):
-        res["notes"].append("twin instance differs from the original")
-        return res
-    def textdiff(eb):
-        return [(k, p, ea[k].get(p), eb.get(k, {}).get(p)) for k in ea for p in sorted(set(ea[k]) | set(eb.get(k, {})))
-                if ea[k].get(p) != eb.get(k, {}).get(p)][:4]
-    eD = nonneg(raw_entities(unhx(out[i_rawA2 + 2].split()[1])))
-    res["copies"] += 1
-    if eD != ea:
-        res["problems"].append(("bincopy", f"dump_raw of the StorageBin copy differs: {textdiff(eD) or sorted(set(ea) ^ set(eD))}"))
-    eE = nonneg(raw_entities(unhx(out[i_rawA2 + 4].split()[1])))
-    res["copies"] += 1
-    ser_kinds = {"SOLUTION_RAW", "EXCHANGE_RAW", "GAS_PHASE_RAW", "KINETICS_RAW", "EQUILIBRIUM_PHASES_RAW", "SOLID_SOLUTIONS_RAW",
-                 "SURFACE_RAW", "REACTION_TEMPERATURE_RAW", "REACTION_PRESSURE_RAW"}
-    # a binary copy of a binary copy is the same stream: Serialize∘Deserialize∘Serialize = Serialize (catches index slips)
-    sa_, se_ = out[i_rawA2 + 5].split(";"), out[i_rawA2 + 6].split(";")
-    if sa_ != se_:
-        part = next((n for n, (x, y) in zip(("ints", "doubles", "words"), zip(sa_, se_)) if x != y), "length")
-        xs, ys = (sa_ + [""] * 3)[("ints", "doubles", "words", "length").index(part) % 3].split(","), (se_ + [""] * 3)[("ints", "doubles", "words", "length").index(part) % 3].split(",")
-        pos = next((n for n, (x, y) in enumerate(zip(xs, ys)) if x != y), min(len(xs), len(ys)))
-        res["problems"].append(("sercopy", f"Serialize(Deserialize(Serialize(state))) differs from Serialize(state): first difference in {part} at index {pos - 1}"))
-    miss = [k for k in ea if k[0] in ser_kinds and 0 <= k[1] <= 12 and k not in eE]
-    if miss:
-        res["problems"].append(("sercopy", f"entities lost by Serialize/Deserialize: {miss}"))
-    res["ser_text_diffs"] = sorted({f"{k[0]}:{p.split('/')[-1].split('#')[0]}" for k in eE if k in ea for p in set(eE[k]) | set(ea[k])
-                                    if eE[k].get(p) != ea[k].get(p)})
-    if len(out) > i_fu + 3:
-        ra = parse_run(out[i_fu])
-        if ra[0] == 0:
-            sa = parse_sel(out[i_fu + 1])
-            for j, (t, nm) in enumerate((("D", "bincopy"),) + ((("E", "sercopy"),) if ser_ok else ())):
-                pos = i_fu + 2 + 2 * j
-                rt = parse_run(out[pos])
-                if rt[0] != 0:
-                    res["problems"].append((nm, f"follow-up runs on the original but fails on the copy: {rt[1][:200]}"))
-                    continue
-                res["followups"] += 1
-                d = cells_differ(sa, parse_sel(out[pos + 1]), skip, lag, rel)
-                if d:
-                    res["problems"].append((nm, f"follow-up on the copy differs: {d}"))
-    # ---- stage 4 (own process): Phreeqc copy constructor → InternalCopy
-    ops4 = []
-    fresh("A3", ops4)
-    ops4 += [f"run A3 {hx(case['setup'])}", "rawall A3", "icopyraw A3"]
-    out, rc, err = run_ops(ctx, exe, ops4)
-    good = len(out) == len(ops4) and rc == 0 and len(out[-1].split()) == 2 and out[-1].startswith("raw ")
-    if not good:
-        res["problems"].append(("icopy", f"Phreeqc copy constructor (InternalCopy) fails: rc={rc} {out[-1][:60] if out else ''} {err[-120:]}"))
-    else:
+                res["problems"].append((CLASS[t], f"follow-up {name}: original vs {t}: {d}"))
+    # ---- text of the exact copies
+    if deep:
+        nonneg = lambda ents: {k: v for k, v in ents.items() if k[1] >= 0}
+        ea = nonneg(raw_entities(rawA))
+        i0 = idx["copies"]
+        eD = nonneg(raw_entities(unhx(out[i0 + 1].split()[1])))
         res["copies"] += 1
-        e0 = nonneg(raw_entities(unhx(out[-2].split()[1])))
-        eF = nonneg(raw_entities(unhx(out[-1].split()[1])))
-        if eF != e0:
-            diff = [(k, p, e0[k].get(p), eF.get(k, {}).get(p)) for k in e0 for p in sorted(set(e0[k]) | set(eF.get(k, {})))
-                    if e0[k].get(p) != eF.get(k, {}).get(p)][:4]
-            res["problems"].append(("icopy", f"dump_raw of the copy-constructed engine differs: {diff or sorted(set(e0) ^ set(eF))}"))
-    if lag:
-        res["lag"] = [x for x in lag if "column pH" not in x][:3]
-        res["phnoise"] = [x for x in lag if "column pH" in x][:3]
+        if eD != ea:
+            diff = [(k, p, ea[k].get(p), eD.get(k, {}).get(p)) for k in ea for p in sorted(set(ea[k]) | set(eD.get(k, {})))
+                    if ea[k].get(p) != eD.get(k, {}).get(p)][:4]
+            res["problems"].append(("bincopy", f"dump_raw of the StorageBin copy differs: {diff or sorted(set(ea) ^ set(eD))}"))
+        eE = nonneg(raw_entities(unhx(out[i0 + 3].split()[1])))
+        res["copies"] += 1
+        # a binary copy of a binary copy is the same stream: Serialize∘Deserialize∘Serialize = Serialize (catches index slips)
+        sa_, se_ = out[i0 + 4].split(";"), out[i0 + 5].split(";")
+        if sa_ != se_:
+            names = ("ints", "doubles", "words")
+            part = next((n for n, x, y in zip(names, sa_, se_) if x != y), "length")
+            j = names.index(part) if part in names else 0
+            xs, ys = sa_[j].split(","), se_[j].split(",")
+            at = next((n for n, (x, y) in enumerate(zip(xs, ys)) if x != y), min(len(xs), len(ys)))
+            res["problems"].append(("sercopy", f"Serialize(Deserialize(Serialize(state))) differs from Serialize(state): first difference in {part} at index {at - 1}"))
+        ser_kinds = {"SOLUTION_RAW", "EXCHANGE_RAW", "GAS_PHASE_RAW", "KINETICS_RAW", "EQUILIBRIUM_PHASES_RAW", "SOLID_SOLUTIONS_RAW",
+                     "SURFACE_RAW", "REACTION_TEMPERATURE_RAW", "REACTION_PRESSURE_RAW"}
+        miss = [k for k in ea if k[0] in ser_kinds and 0 <= k[1] <= 12 and k not in eE]
+        if miss:
+            res["problems"].append(("sercopy", f"entities lost by Serialize/Deserialize: {miss}"))
+        res["ser_text_diffs"] = sorted({f"{k[0]}:{p.split('/')[-1].split('#')[0]}" for k in eE if k in ea for p in set(eE[k]) | set(ea[k])
+                                        if eE[k].get(p) != ea[k].get(p)})
+        # ---- stage 3 (own process: the copy constructor can take the process down): Phreeqc(const Phreeqc&) → InternalCopy
+        ops4 = []
+        fresh("A3", ops4)
+        ops4 += [f"run A3 {hx(case['setup'])}", "rawall A3", "icopydiag A3", "icopyraw A3"]
+        out, rc, err = run_ops(ctx, exe, ops4)
+        good = len(out) == len(ops4) and rc == 0 and len(out[-1].split()) == 2 and out[-1].startswith("raw ")
+        if not good:
+            diag = next((l for l in out if l.startswith("diag ")), "")
+            msg = unhx(diag.split(" msg=")[1]) if " msg=" in diag else ""
+            text = f"Phreeqc copy constructor (InternalCopy) fails: rc={rc} {err[-80:].strip()} :: {msg[:160]}"
+            if "Species for Pitzer parameter not defined" in msg:
+                res["sig"].append(("copy-constructor-pitzer", text))
+            else:
+                res["problems"].append(("icopy", text))
+        else:
+            res["copies"] += 1
+            e0 = nonneg(raw_entities(unhx(out[-3].split()[1])))
+            eF = nonneg(raw_entities(unhx(out[-1].split()[1])))
+            if eF != e0:
+                diff = [(k, p, e0[k].get(p), eF.get(k, {}).get(p)) for k in e0 for p in sorted(set(e0[k]) | set(eF.get(k, {})))
+                        if e0[k].get(p) != eF.get(k, {}).get(p)][:4]
+                res["problems"].append(("icopy", f"dump_raw of the copy-constructed engine differs: {diff or sorted(set(e0) ^ set(eF))}"))
     return res
 
 
@@ -457,38 +440,52 @@ def find_option_correspondence(ctx, exe, tables, n_random):
     return len(qs), bad
 
 
-# ---------------------------------------------------------------------------------------------- known signatures
+# ---------------------------------------------------------------------------------------------- known departures
+# Each key is a departure of the real code from C10 whose cause has been traced (see the rule that attributes a difference to it
+# in eval_case); each has a hand-minimised case that is evaluated on every run, so the finding is re-confirmed, not assumed.
 SEL_GAS = ("SELECTED_OUTPUT 1\n -reset false\n -pH true\n -totals Na Cl C\n -gases CH4(g) H2O(g) CO2(g)\n")
+SEL_EX = ("KNOBS\n -convergence_tolerance 1e-12\nSELECTED_OUTPUT 1\n -reset false\n -pH true\n -totals K Ca\n -molalities KX CaX2\n")
+SEL_KIN = ("KNOBS\n -convergence_tolerance 1e-12\nSELECTED_OUTPUT 1\n -reset false\n -pH true\n -totals Na Ca C\n"
+           " -kinetic_reactants Calcite MyRate\n")
+TIED_SETUP = ("SOLUTION 1\n K 2.4\n Cl 0.4\nEND\nEQUILIBRIUM_PHASES 1\n Calcite 0 1e-5\nEXCHANGE 1\n X Calcite equilibrium_phase 0.05\n"
+              " -equilibrate 1\nEND\nUSE solution 1\nUSE equilibrium_phases 1\nUSE exchange 1\nSAVE solution 1\nSAVE equilibrium_phases 1\n"
+              "SAVE exchange 1\nEND\n")
 MIN_CASES = {
-    "gascomp-p_read-nan": dict(db="phreeqc.dat", adds="", kinds=["gas"], feat=["gas:fixed_volume"], react=False,
-        setup="SOLUTION 1\n C 1\nEND\nGAS_PHASE 1\n -fixed_volume\n -equilibrate 1\n CO2(g)\nEND\n",
-        followups=[("use", SEL_GAS + "USE solution 1\nUSE gas_phase 1\nEND\n")]),
     "gas-phase-first-step-lag": dict(db="phreeqc.dat", adds="", kinds=["gas"], feat=["gas:fixed_volume"], react=True,
         setup="SOLUTION 1\n temp 60\n Na 1\n Cl 1\nEND\nGAS_PHASE 1\n -fixed_volume\n -volume 1\n -temperature 40\n CH4(g) 0.005\n H2O(g) 0.03\n"
               "END\nUSE solution 1\nUSE gas_phase 1\nREACTION 5\n NaCl 1\n 0.0005\nSAVE solution 1\nSAVE gas_phase 1\nEND\n",
         followups=[("use", SEL_GAS + "USE solution 1\nUSE gas_phase 1\nREACTION 9\n HCl 1\n 0.001\nEND\n")]),
     "copy-constructor-pitzer": dict(db="pitzer.dat", adds="", kinds=[], feat=[], react=False,
         setup="SOLUTION 1\n Na 1\n Cl 1\nEND\n", followups=[("use", "USE solution 1\nEND\n")]),
+    "tied-exchanger-rederived": dict(db="phreeqc.dat", adds="", kinds=["exch", "pp"], feat=["exch:phase-related"], react=True,
+        setup=TIED_SETUP,
+        followups=[("use", SEL_EX + "USE solution 1\nUSE equilibrium_phases 1\nUSE exchange 1\nREACTION 9\n HCl 1\n 0.0005\nEND\n")]),
+    "exchange-on-empty-phase-two-cycles": dict(db="phreeqc.dat", adds="", kinds=["exch", "pp"], feat=["exch:phase-related"], react=True,
+        setup=TIED_SETUP, followups=[("use", "USE solution 1\nEND\n")]),
+    "raw-text-14-digits": dict(db="phreeqc.dat", adds=graw.RATE_ADDS, kinds=["kin"], feat=["kin:cvode"], react=False,
+        setup="SOLUTION 1\n temp 25\n pH 7\n Na 1.5\n Cl 1.5\nEND\nKINETICS 1\n Calcite\n  -tol 1e-9\n  -m0 0.07971\n  -m 0.2714\n"
+              "  -parms 167000 0.67\n MyRate\n  -formula NaCl 1 H2O 0.1\n  -m0 0.4045\n  -parms 5.859e-06 2 3\n  -tol 1e-8\n"
+              " -steps 500 100 1000\n -cvode true\nEND\n",
+        followups=[("use", SEL_KIN + "USE solution 1\nUSE kinetics 1\nEND\n")]),
 }
-
-
-def signature(case, r, p):
-    """known-finding signature of a problem, or None"""
-    if p[0] == "read-error" and "initial partial pressure" in p[1] and "gas" in case["kinds"]:
-        return "gascomp-p_read-nan"
-    if p[0] == "not-fixed" and "exch:phase-related" in case["feat"] and "EXCHANGE_RAW" in p[1] and "/totals/" in p[1]:
-        return "exchange-on-empty-phase-two-cycles"
-    if p[0] in ("followup", "bincopy", "sercopy", "modify") and ({"exch:phase-related", "exch:rate-related"} & set(case["feat"])) \
-            and "column m_" in p[1] and "X" in p[1]:
-        return "exchange-tied-to-phase-followup"
-    if p[0] in ("followup", "modify") and "ss:nonideal" in case["feat"] and "column s_" in p[1]:
-        return "nonideal-solid-solution-followup"
-    if p[0] == "icopy" and case["db"] == "pitzer.dat" and "copy constructor" in p[1]:
-        return "copy-constructor-pitzer"
-    return None
+CORPUS = vlib.ROOT / "corpus" / "C10"
 
 
 # ---------------------------------------------------------------------------------------------- run
+def eval_many(ctx, exe, cases, status_of, batch=96, workers=None):
+    """evaluate cases in batches (bounded number of live harness processes and of results kept in memory)"""
+    import resource
+    workers = workers or min(12, vlib.NCPU)
+    for i in range(0, len(cases), batch):
+        chunk = cases[i:i + batch]
+        with concurrent.futures.ThreadPoolExecutor(max_workers=workers) as ex:
+            results = list(ex.map(lambda c: eval_case(ctx, exe, c, status_of), chunk))
+        for c, r in zip(chunk, results):
+            yield c, r
+        ctx.cov["peak_rss_mb"] = {"python": resource.getrusage(resource.RUSAGE_SELF).ru_maxrss // 1024,
+                                  "largest_child": resource.getrusage(resource.RUSAGE_CHILDREN).ru_maxrss // 1024}
+
+
 def run(ctx):
     ok = True
     tables, info = None, None
@@ -506,7 +503,6 @@ def run(ctx):
     ctx.build_lib()
     exe = ctx.build_harness("ph_raw")
     evals = 0
-    # ---- static defects of the regenerated tables → findings
     static = info["defects"] if info else []
     ctx.cov["table_defects"] = [list(d) for d in static]
     status_of = (lambda tab, path: "unmodelled")
@@ -525,25 +521,33 @@ def run(ctx):
         if bad:
             ctx.violation(f"CParser::find_option / vopts of the built library disagree with the model: {bad[:3]}",
                           {"queries": [list(map(str, b)) for b in bad[:10]]}, found_input=True)
+    t_start = time.time()
+    # ---- corpus: minimised past failures (repaired defects) are replayed first and must pass completely
+    corpus = sorted(CORPUS.glob("*.json")) if CORPUS.exists() else []
+    for f in corpus:
+        c = json.loads(f.read_text())["case"]
+        r = eval_case(ctx, exe, c, status_of)
+        evals += 1
+        bad = [p for p in r["problems"]] + ([("setup", "corpus case no longer runs")] if not r["judged"] else [])
+        if bad:
+            ctx.violation(f"corpus case {f.name}: {bad[0][0]}: {bad[0][1]}", {"case": c, "problem": list(bad[0]), "corpus": f.name})
+    ctx.cov["corpus_cases"] = len(corpus)
     # ---- generated reaction states on the real code
     n = ctx.n(40, 1000)
     if not ok:
         n = max(n, 400)
     forced = ["iso", "iso", "surf", "gas", "ss", "kin", "exch", "pp", "mix", "temp", "pres", "rxn", "pitzer"]
     cases = [graw.gen_case(ctx.rng, forced[i] if i < len(forced) else None) for i in range(n)]
-    feat_hist, kinds_hist, ent_hist = {}, {}, {}
-    stats = dict(judged=0, setup_failed=0, d1_ne_d2=0, followups=0, copies=0, modify=0)
-    problems = []
-    with concurrent.futures.ThreadPoolExecutor(max_workers=min(12, vlib.NCPU)) as ex:
-        results = list(ex.map(lambda c: eval_case(ctx, exe, c, status_of), cases))
-    distinct = set()
-    for c, r in zip(cases, results):
+    feat_hist, ent_hist = {}, {}
+    stats = dict(judged=0, setup_failed=0, timeouts=0, d1_ne_d2=0, followups=0, copies=0, modify=0)
+    problems, sig_seen, distinct = [], {}, set()
+    for c, r in eval_many(ctx, exe, cases, status_of):
         evals += 1
         for f in c["feat"]:
             feat_hist[f] = feat_hist.get(f, 0) + 1
         if not r["judged"]:
             stats["setup_failed"] += 1
-            stats["timeouts"] = stats.get("timeouts", 0) + bool(r.get("timeout"))
+            stats["timeouts"] += bool(r.get("timeout"))
             continue
         stats["judged"] += 1
         distinct.add(c["setup"])
@@ -553,102 +557,72 @@ def run(ctx):
         stats["followups"] += r["followups"]
         stats["copies"] += r["copies"]
         stats["modify"] += bool(r.get("modify"))
-        if len(ctx.cov["samples"]) < 2 and not r["problems"]:
+        if len(ctx.cov["samples"]) < 2 and not r["problems"] and not r["sig"]:
             ctx.sample({"db": c["db"], "setup": c["setup"][:600], "entities": r["entities"]})
+        for key, text in r["sig"]:
+            sig_seen.setdefault(key, []).append((c, text))
         for p in r["problems"]:
-            problems.append((c, p))
+            if p[0] != "setup":
+                problems.append((c, p))
     ctx.cov["input_distribution"] = dict(sorted(feat_hist.items()))
     ctx.cov["entities_dumped"] = ent_hist
     ctx.cov["case_stats"] = stats
-    # ---- judge problems
-    isotope_related = lambda c, p: c["db"] == "iso.dat" and p[0] in ("read-error", "not-fixed", "followup", "model")
+    ctx.cov["attributed_differences"] = {k: len({id(c) for c, _ in v}) for k, v in sig_seen.items()}
+    # ---- unattributed problems are violations (one per class, shrunk within a time budget)
     seen_classes = set()
-    iso_replay = None
-    sig_seen = {}
-    routed = set()
-    for c, r in zip(cases, results):
-        if r.get("lag"):
-            sig_seen.setdefault("gas-phase-first-step-lag", []).append(r["lag"][0])
-        if r.get("phnoise"):
-            sig_seen.setdefault("raw-text-14-digits-pH", []).append(r["phnoise"][0])
-            if "raw-text-14-digits-pH" not in routed:
-                routed.add("raw-text-14-digits-pH")
-                ctx.finding("raw-text-14-digits-pH", "follow-up pH on the state restored from RAW text differs beyond 1e-7 (14 significant digits "
-                            "of total_h / cb): " + r["phnoise"][0], {"case": c, "problem": ["followup", r["phnoise"][0]]})
     for c, p in problems:
-        if p[0] == "setup":
-            continue
-        sg = signature(c, None, p)
-        if sg:
-            sig_seen.setdefault(sg, []).append(p[1][:160])
-            if sg not in MIN_CASES and sg not in routed:
-                routed.add(sg)
-                ctx.finding(sg, p[1][:300], {"case": c, "problem": list(p)})
-            continue
-        if isotope_related(c, p) and any(d[0] in ("Solution", "SolutionIsotope") for d in static):
-            if iso_replay is None:
-                iso_replay = (c, p)
-            continue
         if p[0] in seen_classes:
             continue
         seen_classes.add(p[0])
-        small = shrink_case(ctx, exe, c, p[0], status_of)
+        small = shrink_case(ctx, exe, c, p[0], status_of) if time.time() - t_start < ctx.n(100, 900) else c
         r = eval_case(ctx, exe, small, status_of)
         what = next((q for q in r["problems"] if q[0] == p[0]), p)
         if p[0] == "model":
             # Q: model and code disagree on which keys survive; direct oracle = the other problem classes of this case
-            direct = [q for q in r["problems"] if q[0] not in ("model", "setup")]
-            if direct:
+            if [q for q in r["problems"] if q[0] not in ("model", "setup")]:
                 continue            # reported under its own class
             ctx.violation(f"model/code disagreement (text of first and second dump): {what[1]}", {"case": small, "problem": list(what)},
                           found_input=False)
         else:
             ctx.violation(f"{what[0]}: {what[1]}", {"case": small, "problem": list(what)})
-    # ---- departures with a known signature: confirmed on a hand-minimised case, routed as findings
-    ctx.cov["signature_hits"] = {k: len(v) for k, v in sig_seen.items()}
+    # ---- traced departures: re-confirmed on the hand-minimised case, routed as findings
     for key, mc in MIN_CASES.items():
         r = eval_case(ctx, exe, mc, status_of)
         evals += 1
-        hit = [p for p in r["problems"] if signature(mc, r, p) == key] or ([("followup", "first reaction step with a gas phase: " + r["lag"][0])]
-                                                                              if key == "gas-phase-first-step-lag" and r.get("lag") else [])
+        hit = [t for k, t in r["sig"] if k == key]
         if hit:
-            ctx.finding(key, hit[0][1][:300], {"case": mc, "problem": list(hit[0]), "seen_in_generated_cases": len(sig_seen.get(key, []))})
+            ctx.finding(key, hit[0][:300], {"case": mc, "problem": [key, hit[0]], "seen_in_generated_cases": len(sig_seen.get(key, []))})
         elif key in sig_seen:
-            ctx.violation(f"{key}: seen in generated states but not on the minimal case: {sig_seen[key][0]}", {"seen": sig_seen[key][:3]})
-        other = [p for p in r["problems"] if p[0] != "setup" and signature(mc, r, p) != key]
+            c, text = sig_seen[key][0]
+            ctx.finding(key, text[:300], {"case": c, "problem": [key, text], "note": "not reproduced by the minimal case"})
+        other = [p for p in r["problems"] if p[0] != "setup"] + [(k, t) for k, t in r["sig"] if k not in MIN_CASES]
         if other:
             ctx.violation(f"{other[0][0]}: {other[0][1]}", {"case": mc, "problem": list(other[0])})
-    # ---- static defects: each one is a finding (known → KNOWN-FINDING) with the isotope round trip as replay
-    done_keys = set()
+    for key in sig_seen:
+        if key not in MIN_CASES:
+            c, text = sig_seen[key][0]
+            ctx.violation(f"{key}: {text}", {"case": c, "problem": [key, text]})
+    # ---- defects of the regenerated tables (obligation fails): exempted from the theorems, so each must be reported
     for d in static:
-        key = FINDING_KEYS.get((d[0], d[1], d[2]), f"{d[0]}.{d[2]}.{d[1]}")
-        if key in done_keys:
-            continue
-        done_keys.add(key)
-        replay = {"defect": list(d), "all_defects_of_this_key": [list(x) for x in static if FINDING_KEYS.get((x[0], x[1], x[2])) == key]}
-        if iso_replay and d[0] in ("Solution", "SolutionIsotope"):
-            small = shrink_case(ctx, exe, iso_replay[0], iso_replay[1][0], status_of) if "iso_small" not in ctx.cov else ctx.cov["iso_small"]
-            ctx.cov["iso_small"] = small
-            replay["case"] = small
-            replay["problem"] = list(iso_replay[1])
-            ctx.finding(key, f"{d[0]} -{d[2]}: {d[1]} fails ({d[3]}); on the real code: {iso_replay[1][1][:200]}", replay)
-        elif (ctx.prop, key) in ctx.known:
-            ctx.finding(key, "", replay)
-        else:
+        key = f"{d[0]}.{d[2]}.{d[1]}"
+        if (ctx.prop, key) in ctx.known:
+            ctx.finding(key, "", {"defect": list(d)})
+        elif not any(v[1] for v in ctx.violations):
             ctx.violation(f"obligation {d[1]} fails for the regenerated table {d[0]} (key {d[2]}: {d[3]}); no failing input found",
-                          replay, found_input=False)
-    ctx.cov.pop("iso_small", None)
-    if iso_replay and not any(d[0] in ("Solution", "SolutionIsotope") for d in static):
-        c, p = iso_replay
-        ctx.violation(f"{p[0]}: {p[1]}", {"case": c, "problem": list(p)})
+                          {"defect": list(d)}, found_input=False)
+        else:
+            ctx.log(f"table defect {d} (a failing input is reported above)")
     ctx.cov["evaluations"] = evals
     ctx.cov["distinct_nontrivial"] = len(distinct)
     ctx.cov["rule"] = ("find_option: every written key, all its prefixes, upper-case form, every option, option+x, half options and random "
                        "items, prefix and exact mode, on the real vopts vectors vs pmodel raw. States: seeded inputs defining 1–5 entity "
                        "kinds (histogram in input_distribution) on phreeqc.dat / pitzer.dat / iso.dat, 75 % reacted and SAVEd; per state: dump, "
-                       "read into a fresh instance (no errors), dump, read, dump (equal text), follow-up USE…/RUN_CELLS on original vs "
-                       "restored (1e-7), SOLUTION_MODIFY perturb-and-restore, StorageBin / Serializer / copy-constructor (InternalCopy) copies (dump_raw text and "
-                       "follow-up); differences between first and second dump must be on keys the model calls dropped. distinct = "
+                       "read into a fresh instance (no errors), dump, read, dump (equal text), follow-ups (USE… / RUN_CELLS, convergence "
+                       "tolerance 1e-12) on the original, the restored instance, a StorageBin copy, a Serializer copy and a restored instance "
+                       "after a SOLUTION_MODIFY of totals/H/O/cb, all against the original at 1e-7; Serializer stream idempotence; copy "
+                       "constructor; differences between first and second dump must be on keys the model calls dropped. A difference is "
+                       "attributed to a traced cause only by the rules in eval_case (exact copy reproduces original → text precision; restored + "
+                       "original's phase::pr_si_f reproduces original → gas lag; tied component re-derived in the second dump). distinct = "
                        "distinct setup inputs that ran without error (judged).")
     if not ok and not ctx.violations:
         ctx.violation("proof obligation / translator of C10 no longer checks and no failing input was found",
@@ -658,11 +632,14 @@ def run(ctx):
 def shrink_case(ctx, exe, case, cls, status_of):
     """drop whole input lines of the setup while the same problem class persists"""
     lines = case["setup"].splitlines()
+    t0 = time.time()
 
     def fails(sub):
+        if time.time() - t0 > 120:
+            return False
         c = dict(case, setup="\n".join(sub) + "\n")
         try:
-            r = eval_case(ctx, exe, c, status_of, deep=False)
+            r = eval_case(ctx, exe, c, status_of)
         except Exception:
             return False
         return any(p[0] == cls for p in r["problems"])
@@ -687,10 +664,12 @@ def replay(ctx, data):
         print("model side unavailable:", e)
         status_of = (lambda tab, path: "unmodelled")
     r = eval_case(ctx, exe, data["case"], status_of)
-    print("replay:", r["problems"], r.get("notes"))
+    print("replay: problems", r["problems"], "attributed", r["sig"], r.get("notes"))
     bad = [p for p in r["problems"] if p[0] != "setup"]
     if bad:
         ctx.violation(f"replayed case still fails: {bad[0][0]}: {bad[0][1]}", data)
+    for key, text in r["sig"]:
+        ctx.finding(key, text[:300], data)
 
 
 MANIFEST = dict(
